@@ -84,7 +84,7 @@ func cmdCheck(args []string) int {
 	t0 := time.Now()
 	seed := 0
 	fmt.Sscanf(os.Getenv("VERIF_SEED"), "%d", &seed)
-	timeout := 30 * time.Second
+	timeout := 45 * time.Second
 	if *tier == "thorough" {
 		timeout = 120 * time.Second
 	}
